@@ -160,7 +160,7 @@ func (o *Obligation) buildBody(w *World, depth int, dropHyp int, extra ...*Term)
 	for _, it := range enc.items[:o.NItems] {
 		if it.Decl {
 			fmt.Fprintf(&sb, "(declare-const %s %s)\n", it.Name, it.Sort)
-		} else {
+		} else if it.Scope == 0 || !o.ClosedScopes[it.Scope] {
 			asserts = append(asserts, it.T)
 		}
 	}
